@@ -28,6 +28,7 @@ func init() {
 
 func runC03(c *Ctx) {
 	trimKeepsSubscriptions(c, "C03.e trim-keeps-subscribed-nodes", 3, 4, 5)
+	listAndIndexInStep(c, "C03.f list-and-index-in-step")
 	ptc := c.fn("mqtt", "(*Server).publishToClient")
 	c.whoCalls("C03.a one-enqueue-per-client", ptc, map[string]string{fnPubToSubs: "live delivery: one call per entry of Subscriptions (keyed by client id)", "(*mqtt.Server).publishRetainedToClient": "retained replay"})
 	if f := c.fn("mqtt", "(*Server).publishToSubscribers"); f != nil {
@@ -692,6 +693,7 @@ func init() {
 }
 
 func runC35(c *Ctx) {
+	connectParsedFirst(c, "C35.e connect-parsed-first")
 	f := c.fn("mqtt", "(*Server).attachClient")
 	if f == nil {
 		return
@@ -834,6 +836,7 @@ func init() {
 }
 
 func runC36(c *Ctx) {
+	disconnectAlwaysStops(c, "C36.e disconnect-stops")
 	// (a) Add sites of ClientsWg
 	n := 0
 	for _, fn := range c.ModFns {
@@ -1117,6 +1120,8 @@ func init() {
 }
 
 func runC39(c *Ctx) {
+	connReaderDiscipline(c, "C39.d reader-discipline")
+	websocketAPISurface(c, "C39.e api-surface")
 	f := c.fn("listeners", "(*wsConn).Read")
 	if f != nil {
 		nr := c.call1(f, "(*github.com/gorilla/websocket.Conn).NextReader")
